@@ -121,8 +121,11 @@ Section Flatten.
   Variable T : table.
   Variable M : arpa.
   Hypothesis Inv : TInv N_order T M.
-  (* no separate rest costs (ProbingModel, TrieModel and their quantised / array-compressed variants) *)
-  Hypothesis rest_eq : forall k e, T k = Some e -> e_rest e = e_prob e.
+  (* Search::kDifferentRest: with separate rest costs (RestProbingModel) InternalUnRest converts rest to probability
+     when a left state is completed; without them rest = probability *)
+  Variable dr : bool.
+  Hypothesis rest_dr : dr = false -> forall k e, T k = Some e -> e_rest e = e_prob e.
+  Definition rest_eq : Prop := forall k e, T k = Some e -> e_rest e = e_prob e.
   (* the property's precondition as the tables see it: the extension bit of a back-off (set for a non-zero back-off
      or for a context) is only found on contexts of longer n-grams.  Unigrams are exempt: the <unk> entry the loaders
      synthesise when the file has none carries back-off +0.0, i.e. the bit, without being a context. *)
@@ -413,9 +416,26 @@ Section Flatten.
 
   (* ---- RuleScore ------------------------------------------------------------------------------------------ *)
   Notation term := (rs_terminal N_order T).
-  Notation nt := (rs_nonterminal N_order T false).
-  Notation ntl := (nt_loop N_order T false).
+  Notation nt := (rs_nonterminal N_order T dr).
+  Notation ntl := (nt_loop N_order T dr).
+  Notation unr := (un_rest T dr).
   Notation fin := (rs_finish N_order).
+
+  Lemma unr_nil : unr [] = 0%Z.
+  Proof. unfold un_rest. destruct dr; reflexivity. Qed.
+  Lemma unr_nil' : un_rest T dr (@nil (list N)) = 0%Z.
+  Proof. exact unr_nil. Qed.
+  Lemma unr_app : forall a b, unr (a ++ b) = (unr a + unr b)%Z.
+  Proof.
+    intros a b. unfold un_rest. destruct dr; [|reflexivity].
+    induction a as [|p a IH]; cbn [app fold_right]; [lia|]. rewrite IH. destruct (T p); lia.
+  Qed.
+  Lemma unr_one : forall p e, T p = Some e -> (e_rest e + unr [p] = e_prob e)%Z.
+  Proof.
+    intros p e He. unfold un_rest. destruct dr eqn:Ed; cbn [fold_right].
+    - rewrite He. lia.
+    - rewrite (rest_dr eq_refl _ _ He). lia.
+  Qed.
 
   (* Finish() reports the left state complete as soon as it holds N-1 pointers: two rule states that differ only in
      that are the same to every later operation *)
@@ -492,7 +512,7 @@ Section Flatten.
   Proof.
     induction l as [|p l IH]; intros in_c in_c' orig el el' P d Q q nu back; cbn [nt_loop ntl_adj]; [reflexivity|].
     destruct (extend_left N_order T (firstn nu (s_words orig)) back p) as [[ret bo] nu'].
-    unfold process_ret. unfold un_rest.
+    unfold process_ret.
     assert (A : forall x, (Q + q + x = Q + x + q)%Z) by (intros; lia).
     destruct d.
     - rewrite A. destruct (negb (Nat.eqb nu' (length (s_words orig)))); [destruct (Nat.eqb nu' 0)|].
@@ -513,7 +533,7 @@ Section Flatten.
   Lemma ntl_app : forall l1 l2 in_c orig el P d Q nu back,
     ntl in_c orig (l1 ++ l2) el P d Q nu back =
     match ntl in_c orig l1 el P d Q nu back with
-    | inl e => inl e
+    | inl e => inl {| rs_ptrs := rs_ptrs e; rs_right := rs_right e; rs_done := rs_done e; rs_prob := (rs_prob e + unr l2)%Z |}
     | inr (P1, d1, Q1, nu1, back1) => ntl in_c orig l2 el P1 d1 Q1 nu1 back1
     end.
   Proof.
@@ -521,13 +541,14 @@ Section Flatten.
     destruct (extend_left N_order T (firstn nu (s_words orig)) back p) as [[ret bo] nu'].
     destruct (process_ret P d Q ret) as [[P1 d1] Q1].
     assert (E : forall a b c d0 e f, ntl in_c orig (l1 ++ l2) (S el) a b c d0 e =
-                  match ntl in_c orig l1 (S el) a b c d0 e with inl x => inl x
+                  match ntl in_c orig l1 (S el) a b c d0 e with
+                  | inl x => inl {| rs_ptrs := rs_ptrs x; rs_right := rs_right x; rs_done := rs_done x; rs_prob := (rs_prob x + unr l2)%Z |}
                   | inr (P2, d2, Q2, nu2, back2) => ntl in_c orig l2 f P2 d2 Q2 nu2 back2 end).
     { intros a b c d0 e f. rewrite IH. destruct (ntl in_c orig l1 (S el) a b c d0 e) as [x|[[[[P2 d2] Q2] nu2] back2]]; [reflexivity|].
       replace Q2 with (Q2 + 0)%Z by lia. rewrite (ntl_adj_eq l2 in_c in_c orig (S el) f).
       rewrite (ntl_adj_eq l2 in_c in_c orig f f). reflexivity. }
     destruct (negb (Nat.eqb nu' (length (s_words orig)))); [destruct (Nat.eqb nu' 0)|].
-    - unfold un_rest. reflexivity.
+    - cbn [rs_ptrs rs_right rs_done rs_prob]. rewrite unr_app. f_equal. f_equal. lia.
     - apply E.
     - apply E.
   Qed.
@@ -600,7 +621,7 @@ Section Flatten.
     - cbn. split; [reflexivity|]. split; [reflexivity|]. f_equal. lia.
     - destruct (s_words (rs_right R)) as [|c0 cs] eqn:Ew.
       + destruct (rs_done R).
-        * cbn. split; [reflexivity|]. split; [reflexivity|]. f_equal. unfold un_rest. lia.
+        * cbn [rs_done rs_right rs_ptrs rs_prob]. split; [reflexivity|]. split; [reflexivity|]. f_equal. lia.
         * destruct (rs_ptrs R); cbn; (split; [reflexivity|]); (split; [reflexivity|]); f_equal; lia.
       + rewrite <- Ew.
         replace (rs_prob R + (p + q))%Z with ((rs_prob R + p) + q)%Z by lia.
@@ -672,7 +693,7 @@ Section Flatten.
 
   Lemma nt_ctx_empty : forall R ptrs full right p, s_words (rs_right R) = [] -> ptrs <> [] ->
     nt R (mkchart ptrs full right) p =
-    if rs_done R then {| rs_ptrs := rs_ptrs R; rs_right := right; rs_done := true; rs_prob := (rs_prob R + p + 0)%Z |}
+    if rs_done R then {| rs_ptrs := rs_ptrs R; rs_right := right; rs_done := true; rs_prob := (rs_prob R + p + unr ptrs)%Z |}
     else match rs_ptrs R with
          | _ :: _ => {| rs_ptrs := rs_ptrs R; rs_right := right; rs_done := true; rs_prob := (rs_prob R + p)%Z |}
          | [] => {| rs_ptrs := ptrs; rs_right := right; rs_done := full; rs_prob := (rs_prob R + p)%Z |}
@@ -768,7 +789,7 @@ Section Flatten.
     pose proof (wf_ptrs X WX) as HpX.
     destruct (rs_right X) as [c1 B1] eqn:EX. cbn [s_words s_bo] in *.
     destruct (sim_ext c1 B1 w rf outf Hw Hs Hf Ei) as [e [He [Hleft [Hc1 [Hp [Hr [Hx [Hl [Hol Hsim]]]]]]]]].
-    assert (Hrp : r_prob rf = e_rest e) by (rewrite Hp; symmetry; apply (rest_eq _ _ He)).
+    pose proof (unr_one (w :: c1) e He) as Hone.
     set (ptrs := rs_ptrs X) in *.
     assert (HX' : term X w = {| rs_ptrs := ptrs ++ [w :: c1]; rs_right := outf;
                                 rs_done := negb (Nat.eqb (length (s_words outf)) (S (length c1)));
@@ -785,19 +806,19 @@ Section Flatten.
     - (* no outer context *)
       rewrite (nt_ctx_empty R (ptrs ++ [w :: c1]) full' outf _ Ew Hne').
       assert (HY : nt R (mkchart ptrs false {| s_words := c1; s_bo := B1 |}) (rs_prob X) =
-                   if rs_done R then {| rs_ptrs := rs_ptrs R; rs_right := {| s_words := c1; s_bo := B1 |}; rs_done := true; rs_prob := (rs_prob R + rs_prob X + 0)%Z |}
+                   if rs_done R then {| rs_ptrs := rs_ptrs R; rs_right := {| s_words := c1; s_bo := B1 |}; rs_done := true; rs_prob := (rs_prob R + rs_prob X + unr ptrs)%Z |}
                    else {| rs_ptrs := ptrs; rs_right := {| s_words := c1; s_bo := B1 |}; rs_done := false; rs_prob := (rs_prob R + rs_prob X)%Z |}).
       { destruct ptrs as [|p0 ps] eqn:EP.
         - destruct c1; [|discriminate]. destruct B1; [|discriminate].
           unfold rs_nonterminal, mkchart. cbn [c_left c_right l_ptrs l_full].
           destruct (rs_right R) as [c2 B2] eqn:ER. cbn [s_words s_bo] in *. subst c2. destruct B2; [|discriminate].
-          destruct (rs_done R) eqn:EdR; [f_equal; lia|].
+          destruct (rs_done R) eqn:EdR; [rewrite unr_nil; f_equal; lia|].
           pose proof (wf_open R WR EdR) as HoR. rewrite ER in HoR. cbn in HoR. destruct (rs_ptrs R); [reflexivity|discriminate].
         - rewrite (nt_ctx_empty R (p0 :: ps) false _ _ Ew ltac:(discriminate)).
           destruct (rs_done R) eqn:EdR; [reflexivity|].
           pose proof (wf_open R WR EdR) as HoR. rewrite Ew in HoR. destruct (rs_ptrs R); [reflexivity|discriminate]. }
       rewrite HY. unfold rs_terminal. destruct (rs_done R) eqn:EdR.
-      + cbn [rs_right rs_done rs_ptrs rs_prob]. rewrite Hf. apply norm_eq. f_equal. lia.
+      + cbn [rs_right rs_done rs_ptrs rs_prob]. rewrite Hf. apply norm_eq. f_equal. rewrite unr_app, Hp. unfold key in *. lia.
       + pose proof (wf_open R WR EdR) as HoR. rewrite Ew in HoR. destruct (rs_ptrs R) as [|? ?]; [|discriminate].
         cbn [rs_right rs_done rs_ptrs rs_prob s_words]. rewrite Hf, Ei, Hx, Hr.
         unfold norm. cbn [rs_ptrs rs_right rs_done rs_prob]. unfold full'. f_equal.
@@ -814,8 +835,8 @@ Section Flatten.
       destruct (ntl (mkchart ptrs false {| s_words := c1; s_bo := B1 |}) (rs_right R) ptrs 1 (rs_ptrs R) (rs_done R)
                   (rs_prob R + rs_prob X)%Z (length (s_words (rs_right R))) (s_bo (rs_right R))) as [e0|[[[[P d] Q] nu] back]] eqn:EL.
       + destruct (ntl_early _ _ _ _ _ _ _ _ _ _ HpX (wf_ptrs R WR) EL) as [E1 [E2 E3]].
-        cbn [ntl_adj c_right mkchart]. unfold rs_terminal. rewrite E2. cbn [c_right mkchart]. rewrite Hf, E1.
-        apply norm_eq. f_equal. lia.
+        cbn [ntl_adj c_right mkchart rs_ptrs rs_right rs_done rs_prob]. unfold rs_terminal. rewrite E2. cbn [c_right mkchart]. rewrite Hf, E1.
+        apply norm_eq. f_equal. rewrite Hp. unfold key in *. lia.
       + destruct (ntl_inv _ _ _ _ _ _ _ _ _ _ _ _ _ _ HpX (wf_ptrs R WR) (le_n _) HbR (fun _ => eq_refl) EL) as [I1 [I2 [I3 I4]]].
         cbn [ntl_adj]. cbn [nt_loop].
         set (m := length (s_words (rs_right R))) in *.
@@ -851,7 +872,7 @@ Section Flatten.
                 symmetry. apply negb_false_iff. apply Nat.eqb_eq. lia.
         * destruct (Nat.eqb_spec nux 0) as [E0|E0].
           -- (* early exit *)
-             subst nux. cbn [firstn]. rewrite state_app_nil. cbn [mkchart c_right]. unfold un_rest.
+             subst nux. cbn [firstn]. rewrite state_app_nil. cbn [mkchart c_right]. rewrite ?unr_nil, ?unr_nil'.
              destruct d; [apply norm_eq; f_equal; lia|].
              destruct (r_indep rx); [apply norm_eq; f_equal; lia|].
              apply norm_eq. f_equal; [|lia].
@@ -1031,11 +1052,11 @@ Section Flatten.
 
   (* the items of a rule, given that every sub-derivation already evaluates to its flat form *)
   Lemma run_flat : forall l bos fast start,
-    (forall t', In (Sub t') l -> eval_tree N_order T false bs t' = fin (flat rs_init (yield t')) /\ Forall known (yield t')) ->
+    (forall t', In (Sub t') l -> eval_tree N_order T dr bs t' = fin (flat rs_init (yield t')) /\ Forall known (yield t')) ->
     (forall w, In (Term w) l -> known w) -> wf start ->
     forall first r us, wf r -> norm r = norm (flat start us) -> Forall known us ->
     (first = true -> andb fast (negb bos) = true -> start = rs_init /\ us = [] /\ r = rs_init) ->
-    norm (run_items N_order T false bs first bos fast r l) = norm (flat start (us ++ yield_items l)) /\
+    norm (run_items N_order T dr bs first bos fast r l) = norm (flat start (us ++ yield_items l)) /\
     Forall known (us ++ yield_items l).
   Proof.
     induction l as [|i l IH]; intros bos fast start HS HT Wst first r us Wr Hr Hus Hfirst.
@@ -1083,13 +1104,13 @@ Section Flatten.
 
   (* every derivation without inner <s>: the chart state and score of its words scored left to right *)
   Theorem tree_flat : forall t, good t ->
-    eval_tree N_order T false bs t = fin (flat rs_init (yield t)) /\ Forall known (yield t).
+    eval_tree N_order T dr bs t = fin (flat rs_init (yield t)) /\ Forall known (yield t).
   Proof.
     intros t. remember (tsize t) as n eqn:En. revert t En.
     induction n as [n IHn] using lt_wf_ind. intros [bos fast items] En Hg.
     apply (proj1 (good_rule _ _ _)) in Hg. destruct Hg as [-> Hgi].
     assert (HS : forall t', In (Sub t') items ->
-              eval_tree N_order T false bs t' = fin (flat rs_init (yield t')) /\ Forall known (yield t')).
+              eval_tree N_order T dr bs t' = fin (flat rs_init (yield t')) /\ Forall known (yield t')).
     { intros t' Hin. apply (IHn (tsize t')); [subst n; apply tsize_sub; exact Hin|reflexivity|].
       exact (good_items_sub items t' Hgi Hin). }
     assert (HT : forall w, In (Term w) items -> known w).
@@ -1104,11 +1125,11 @@ Section Flatten.
   (* the root rule may apply <s> first *)
   Theorem root_flat : forall (bos fast : bool) items, good_items items ->
     let start := if bos then rs_begin_sentence bs rs_init else rs_init in
-    eval_tree N_order T false bs (Rule bos fast items) = fin (flat start (yield_items items)).
+    eval_tree N_order T dr bs (Rule bos fast items) = fin (flat start (yield_items items)).
   Proof.
     intros bos fast items Hgi start.
     assert (HS : forall t', In (Sub t') items ->
-              eval_tree N_order T false bs t' = fin (flat rs_init (yield t')) /\ Forall known (yield t')).
+              eval_tree N_order T dr bs t' = fin (flat rs_init (yield t')) /\ Forall known (yield t')).
     { intros t' Hin. apply tree_flat.
       exact (good_items_sub items t' Hgi Hin). }
     assert (HT : forall w, In (Term w) items -> known w).
@@ -1121,11 +1142,11 @@ Section Flatten.
   Qed.
 
   (* ---- Terminal by Terminal is FullScore by FullScore ------------------------------------------------------ *)
-  Lemma term_score : forall X w, wf X -> known w ->
+  Lemma term_score : forall X w, rest_eq -> wf X -> known w ->
     rs_right (term X w) = snd (full_score N_order T (rs_right X) w) /\
     rs_prob (term X w) = (rs_prob X + r_prob (fst (full_score N_order T (rs_right X) w)))%Z.
   Proof.
-    intros X w WX Hw. unfold rs_terminal.
+    intros X w rest_eq WX Hw. unfold rs_terminal.
     destruct (full_score N_order T (rs_right X) w) as [rf outf] eqn:Hf. cbn [fst snd].
     destruct (rs_done X); [split; reflexivity|]. destruct (r_indep rf) eqn:Ei; [split; reflexivity|].
     cbn [rs_right rs_prob]. split; [reflexivity|].
@@ -1134,35 +1155,35 @@ Section Flatten.
     rewrite Hp, Hr. rewrite (rest_eq _ _ He). reflexivity.
   Qed.
 
-  Lemma flat_score : forall ws X, wf X -> Forall known ws ->
+  Lemma flat_score : forall ws X, rest_eq -> wf X -> Forall known ws ->
     rs_right (flat X ws) = snd (score_seq N_order T (rs_right X) ws) /\
     rs_prob (flat X ws) = (rs_prob X + fold_right Z.add 0%Z (fst (score_seq N_order T (rs_right X) ws)))%Z.
   Proof.
-    induction ws as [|w ws IH]; intros X WX Hk.
+    induction ws as [|w ws IH]; intros X HR WX Hk.
     - cbn. split; [reflexivity|lia].
     - inversion Hk as [|? ? Hw Hk']. subst. cbn [flat fold_left score_seq].
-      destruct (term_score X w WX Hw) as [H1 H2].
-      destruct (IH (term X w) (term_wf X w WX) Hk') as [I1 I2]. fold (flat (term X w) ws).
+      destruct (term_score X w HR WX Hw) as [H1 H2].
+      destruct (IH (term X w) HR (term_wf X w WX) Hk') as [I1 I2]. fold (flat (term X w) ws).
       rewrite I1, I2, H1, H2.
       destruct (full_score N_order T (rs_right X) w) as [rf outf]. cbn [fst snd].
       destruct (score_seq N_order T outf ws) as [ps final]. cbn [fst snd fold_right]. split; [reflexivity|lia].
   Qed.
 
   (* ---- every derivation: total and right state of left-to-right scoring, i.e. the ARPA recursion ------------ *)
-  Theorem any_bracketing_fragment : forall t, good t ->
-    snd (eval_tree N_order T false bs t) = fold_right Z.add 0%Z (spec_seq N_order M [] (yield t)) /\
-    c_right (fst (eval_tree N_order T false bs t)) =
+  Theorem any_bracketing_fragment : forall t, rest_eq -> good t ->
+    snd (eval_tree N_order T dr bs t) = fold_right Z.add 0%Z (spec_seq N_order M [] (yield t)) /\
+    c_right (fst (eval_tree N_order T dr bs t)) =
       (if yield t then null_state else get_state N_order T (rev (yield t))).
   Proof.
-    intros t Hg. destruct (tree_flat t Hg) as [He Hk]. rewrite He. rewrite fin_eq. cbn [fst snd mkchart c_right].
-    destruct (flat_score (yield t) rs_init wf_init Hk) as [H1 H2]. rewrite H1, H2. cbn [rs_init rs_right rs_prob].
+    intros t HR Hg. destruct (tree_flat t Hg) as [He Hk]. rewrite He. rewrite fin_eq. cbn [fst snd mkchart c_right].
+    destruct (flat_score (yield t) rs_init HR wf_init Hk) as [H1 H2]. rewrite H1, H2. cbn [rs_init rs_right rs_prob].
     destruct (score_seq_spec N_order Hord T M Inv (yield t) null_state [] (valid_null N_order Hord T M)) as [S1 S2].
     { intros w Hin. rewrite Forall_forall in Hk. exact (Hk w Hin). }
     rewrite S1, S2. split; [lia|]. destruct (yield t); [reflexivity|]. rewrite app_nil_r. reflexivity.
   Qed.
 
   Theorem any_bracketing_sentence : forall b (fast : bool) items, bs = bos_state T b -> good_items items ->
-    eval_tree N_order T false bs (Rule true fast items) =
+    eval_tree N_order T dr bs (Rule true fast items) =
     ({| c_left := {| l_ptrs := []; l_full := true |};
         c_right := (if yield_items items then bs else get_state N_order T (rev (yield_items items) ++ [b])) |},
      fold_right Z.add 0%Z (spec_seq N_order M [b] (yield_items items))).
@@ -1173,14 +1194,20 @@ Section Flatten.
       - constructor.
       - constructor; [exact (proj1 Hgi)|exact (IH (proj2 Hgi))].
       - apply Forall_app. split; [exact (proj2 (tree_flat t' (proj1 Hgi)))|exact (IH (proj2 Hgi))]. }
-    destruct (flat_score (yield_items items) (rs_begin_sentence bs rs_init) wf_bos Hk) as [H1 H2].
-    assert (Hd : forall ws X, rs_done X = true -> rs_done (flat X ws) = true /\ rs_ptrs (flat X ws) = rs_ptrs X).
-    { induction ws as [|w ws IHw]; intros X Hd; [split; [exact Hd|reflexivity]|].
-      cbn [flat fold_left]. fold (flat (term X w) ws).
-      assert (Ht : rs_done (term X w) = true /\ rs_ptrs (term X w) = rs_ptrs X).
-      { unfold rs_terminal. destruct (full_score N_order T (rs_right X) w). rewrite Hd. split; reflexivity. }
-      destruct (IHw (term X w) (proj1 Ht)) as [J1 J2]. split; [exact J1|]. rewrite J2. exact (proj2 Ht). }
-    destruct (Hd (yield_items items) (rs_begin_sentence bs rs_init) eq_refl) as [D1 D2].
+    assert (Hd : forall ws X, rs_done X = true ->
+              rs_done (flat X ws) = true /\ rs_ptrs (flat X ws) = rs_ptrs X /\
+              rs_right (flat X ws) = snd (score_seq N_order T (rs_right X) ws) /\
+              rs_prob (flat X ws) = (rs_prob X + fold_right Z.add 0%Z (fst (score_seq N_order T (rs_right X) ws)))%Z).
+    { induction ws as [|w ws IHw]; intros X Hd; [cbn; repeat split; try assumption; lia|].
+      cbn [flat fold_left score_seq]. fold (flat (term X w) ws).
+      assert (Ht : term X w = {| rs_ptrs := rs_ptrs X; rs_right := snd (full_score N_order T (rs_right X) w); rs_done := true;
+                                 rs_prob := (rs_prob X + r_prob (fst (full_score N_order T (rs_right X) w)))%Z |}).
+      { unfold rs_terminal. destruct (full_score N_order T (rs_right X) w). rewrite Hd. reflexivity. }
+      destruct (IHw (term X w) ltac:(rewrite Ht; reflexivity)) as [J1 [J2 [J3 J4]]].
+      rewrite J1, J2, J3, J4, Ht. cbn [rs_ptrs rs_right rs_prob].
+      destruct (full_score N_order T (rs_right X) w) as [rf outf]. cbn [fst snd].
+      destruct (score_seq N_order T outf ws) as [ps final]. cbn [fst snd fold_right]. repeat split; lia. }
+    destruct (Hd (yield_items items) (rs_begin_sentence bs rs_init) eq_refl) as [D1 [D2 [H1 H2]]].
     rewrite fin_eq. rewrite D1, D2, H1, H2. cbn [rs_begin_sentence rs_ptrs rs_right rs_prob rs_init orb mkchart].
     destruct (score_seq_spec N_order Hord T M Inv (yield_items items) bs [b]) as [S1 S2].
     { rewrite Hb. apply valid_bos. exact Hord. }
@@ -1200,7 +1227,7 @@ Section Flatten.
     nu <> 0 -> nu <= length (s_words orig) ->
     match ntl C orig l el P true Q nu back with
     | inl e => exists rest a' back2, xf (s_words orig) l a nu back = (rest, a', 0, back2) /\
-                 rs_ptrs e = P /\ (rs_prob e - Q = a' - a)%Z
+                 rs_ptrs e = P /\ (rs_prob e - Q = a' - a + unr rest)%Z
     | inr (P1, d1, Q1, nu1, back1) => exists a', xf (s_words orig) l a nu back = ([], a', nu1, back1) /\
                  P1 = P /\ d1 = true /\ (Q1 - Q = a' - a)%Z /\ nu1 <> 0 /\ nu1 <= length (s_words orig)
     end.
@@ -1218,7 +1245,7 @@ Section Flatten.
         * destruct IH as [rest [a' [back2 [H1 [H2 H3]]]]]. exists rest, a', back2. rewrite H1. repeat split; try assumption; lia.
         * destruct IH as [a' [H1 [H2 [H3 [H4 [H5 H6]]]]]]. exists a'. rewrite H1. repeat split; try assumption; lia.
       + destruct (Nat.eqb_spec nu' 0) as [E0|E0].
-        * subst nu'. rewrite xf_zero. exists l, (a + r_prob ret)%Z, bo. cbn [rs_ptrs rs_prob]. unfold un_rest. repeat split; lia.
+        * subst nu'. rewrite xf_zero. exists l, (a + r_prob ret)%Z, bo. cbn [rs_ptrs rs_prob]. repeat split; unfold key in *; lia.
         * specialize (IH C orig (S el) P (Q + r_prob ret)%Z (a + r_prob ret)%Z nu' bo Hl' E0 ltac:(lia)).
           destruct (ntl C orig l (S el) P true (Q + r_prob ret)%Z nu' bo) as [e|[[[[P1 d1] Q1] nu1] back1]].
           -- destruct IH as [rest [a' [back2 [H1 [H2 H3]]]]]. exists rest, a', back2. rewrite H1. repeat split; try assumption; lia.
@@ -1231,7 +1258,7 @@ Section Flatten.
     let '(rest, W', a1, mf, nu', back') := xw (s_words orig) m l W a m back in
     let '(rest2, a2, nu2, back2) := xf (s_words orig) rest a1 nu' back' in
     match ntl C orig l el (P0 ++ W) false Q m back with
-    | inl e => nu2 = 0 /\ mf = true /\ rs_ptrs e = P0 ++ W' /\ (rs_prob e - Q = a2 - a)%Z
+    | inl e => nu2 = 0 /\ mf = true /\ rs_ptrs e = P0 ++ W' /\ (rs_prob e - Q = a2 - a + unr rest2)%Z
     | inr (P1, d1, Q1, nu1, back1) => rest2 = [] /\ nu2 = nu1 /\ back2 = back1 /\ mf = d1 /\ P1 = P0 ++ W' /\ (Q1 - Q = a2 - a)%Z /\
                                       nu1 <> 0 /\ nu1 <= m
     end.
@@ -1251,7 +1278,7 @@ Section Flatten.
           -- destruct HF as [r' [a' [b' [H1 [H2 H3]]]]]. injection H1 as -> -> -> ->. repeat split; try assumption; lia.
           -- destruct HF as [a' [H1 [H2 [H3 [H4 [H5 H6]]]]]]. injection H1 as -> -> -> ->. fold m in H6. repeat split; try assumption; try lia. symmetry; exact H3.
         * destruct (Nat.eqb_spec nu' 0) as [E0|E0].
-          -- subst nu'. rewrite xf_zero. cbn [rs_ptrs rs_prob]. unfold un_rest. repeat split; lia.
+          -- subst nu'. rewrite xf_zero. cbn [rs_ptrs rs_prob]. repeat split; unfold key in *; lia.
           -- pose proof (full_sim l C orig (S el) (P0 ++ W) (Q + r_prob ret)%Z (a + r_prob ret)%Z nu' bo Hl' E0 ltac:(fold m; lia)) as HF.
              destruct (xf (s_words orig) l (a + r_prob ret)%Z nu' bo) as [[[rest2 a2] nu2] back2].
              destruct (ntl C orig l (S el) (P0 ++ W) true (Q + r_prob ret)%Z nu' bo) as [e|[[[[P1 d1] Q1] nu1] back1]].
@@ -1267,7 +1294,7 @@ Section Flatten.
           -- destruct IH as [H1 [H2 [H3 H4]]]. repeat split; try assumption; lia.
           -- destruct IH as [H1 [H2 [H3 [H4 [H5 [H6 [H7 H8]]]]]]]. repeat split; try assumption; lia.
         * destruct (Nat.eqb_spec nu' 0) as [E0|E0].
-          -- subst nu'. rewrite xf_zero. cbn [rs_ptrs rs_prob]. unfold un_rest. rewrite <- app_assoc. repeat split; lia.
+          -- subst nu'. rewrite xf_zero. cbn [rs_ptrs rs_prob]. rewrite <- app_assoc. repeat split; unfold key in *; lia.
           -- pose proof (full_sim l C orig (S el) ((P0 ++ W) ++ [r_ext ret]) (Q + r_rest ret)%Z (a + r_rest ret)%Z nu' bo Hl' E0 ltac:(fold m; lia)) as HF.
              destruct (xf (s_words orig) l (a + r_rest ret)%Z nu' bo) as [[[rest2 a2] nu2] back2].
              destruct (ntl C orig l (S el) ((P0 ++ W) ++ [r_ext ret]) true (Q + r_rest ret)%Z nu' bo) as [e|[[[[P1 d1] Q1] nu1] back1]].
@@ -1280,13 +1307,12 @@ Section Flatten.
   Definition gp (p : key) : Prop := exists e, T p = Some e /\ e_left e = true.
 
   Lemma extend_left_nil : forall p, gp p ->
-    exists ret, extend_left N_order T [] [] p = (ret, [], 0) /\ r_indep ret = false /\ r_ext ret = p /\ r_rest ret = 0%Z /\ r_prob ret = 0%Z.
+    exists ret, extend_left N_order T [] [] p = (ret, [], 0) /\ r_indep ret = false /\ r_ext ret = p /\ r_rest ret = 0%Z.
   Proof.
     intros p [e [He Hl]]. rewrite extend_left_core. cbn zeta. cbn [resume_core]. unfold rx0_of. rewrite He.
     cbn [r_prob r_len r_indep r_ext r_rest pick length].
     eexists. split; [rewrite Nat.sub_diag; reflexivity|]. cbn [r_indep r_ext r_rest r_prob].
-    rewrite Hl. cbn [negb]. split; [destruct (Nat.eqb (length p) 1); reflexivity|]. split; [reflexivity|].
-    rewrite (rest_eq _ _ He). rewrite Nat.sub_diag. cbn. split; lia.
+    rewrite Hl. cbn [negb]. split; [destruct (Nat.eqb (length p) 1); reflexivity|]. split; [reflexivity|]. lia.
   Qed.
 
   Lemma xw_empty : forall l W a, Forall gp l ->
@@ -1295,7 +1321,7 @@ Section Flatten.
     induction l as [|p l IH]; intros W a Hl.
     - cbn [ext_write]. exists a. rewrite app_nil_r. split; reflexivity.
     - inversion Hl as [|? ? Hp Hl']. subst. cbn [ext_write firstn].
-      destruct (extend_left_nil p Hp) as [ret [H1 [H2 [H3 [H4 H5]]]]]. rewrite H1, H2. cbn [Nat.eqb negb].
+      destruct (extend_left_nil p Hp) as [ret [H1 [H2 [H3 H4]]]]. rewrite H1, H2. cbn [Nat.eqb negb].
       destruct (IH (W ++ [r_ext ret]) (a + r_rest ret)%Z Hl') as [a' [I1 I2]].
       exists a'. rewrite I1. rewrite H3. rewrite <- app_assoc. split; [reflexivity|]. rewrite I2, H4. lia.
   Qed.
@@ -1311,7 +1337,7 @@ Section Flatten.
   Lemma subsume_nt : forall P1 f1 r1 P2 f2 r2 p1 p2,
     cwf (mkchart P1 f1 r1) -> cwf (mkchart P2 f2 r2) -> Forall gp P2 ->
     forall adj l1' r2',
-    subsume N_order T false {| l_ptrs := P1; l_full := f1 |} r1 {| l_ptrs := P2; l_full := f2 |} r2 = (adj, l1', r2') ->
+    subsume N_order T dr {| l_ptrs := P1; l_full := f1 |} r1 {| l_ptrs := P2; l_full := f2 |} r2 = (adj, l1', r2') ->
     norm (nt (mkrs P1 r1 f1 p1) (mkchart P2 f2 r2) p2) = norm (mkrs (l_ptrs l1') r2' (l_full l1') (p1 + p2 + adj)%Z).
   Proof.
     intros P1 f1 r1 P2 f2 r2 p1 p2 [A1 A2 A3] [B1 B2 B3] HG adj l1' r2' HS.
@@ -1325,19 +1351,19 @@ Section Flatten.
     - (* the second fragment has no pointer *)
       assert (HX : (if negb f1 then xw (s_words r1) m [] [] 0%Z m (s_bo r1) else ([], [], 0%Z, false, m, s_bo r1)) =
                    ([], [], 0%Z, false, m, s_bo r1)) by (destruct f1; reflexivity).
-      rewrite HX in HS. cbn [ext_full un_rest] in HS. cbn [x_adjust x_make_full x_next_use] in HS.
+      rewrite HX in HS. cbn [ext_full] in HS. cbn [x_adjust x_make_full x_next_use] in HS. rewrite ?unr_nil, ?unr_nil' in HS.
       assert (Hbw : firstn m (s_bo r1) = s_bo r1) by exact Hb0. rewrite Hbw in HS.
       unfold rs_nonterminal, mkchart, mkrs. cbn [c_left c_right l_ptrs l_full rs_ptrs rs_right rs_done rs_prob].
       destruct f2.
-      + injection HS as <- <- <-. destruct f1; cbn [l_ptrs l_full]; [apply norm_mk; [lia|reflexivity]|].
-        rewrite app_nil_r. apply norm_mk; [lia|reflexivity].
+      + injection HS as <- <- <-. destruct f1; cbn [l_ptrs l_full]; [apply norm_mk; [unfold key in *; lia|reflexivity]|].
+        rewrite app_nil_r. apply norm_mk; [unfold key in *; lia|reflexivity].
       + pose proof (B3 eq_refl) as Hr2. cbn [length] in Hr2.
         destruct r2 as [w2 b2]. cbn [s_words s_bo] in *. destruct w2; [|discriminate]. destruct b2; [|discriminate].
         cbn [app] in HS. assert (Hfw : firstn m (s_words r1) = s_words r1) by (unfold m; apply firstn_all). rewrite Hfw in HS.
         injection HS as <- <- <-.
         assert (Hr1 : {| s_words := s_words r1; s_bo := s_bo r1 |} = r1) by (destruct r1; reflexivity). rewrite Hr1.
-        destruct f1; cbn [l_ptrs l_full]; [apply norm_mk; [lia|reflexivity]|].
-        rewrite app_nil_r. fold m. apply norm_mk; [lia|]. cbn [orb].
+        destruct f1; cbn [l_ptrs l_full]; [apply norm_mk; [unfold key in *; lia|reflexivity]|].
+        rewrite app_nil_r. fold m. apply norm_mk; [unfold key in *; lia|]. cbn [orb].
         rewrite (A3 eq_refl). fold m. destruct (Nat.eqb m (N_order - 1)); reflexivity.
     - destruct (Nat.eq_dec m 0) as [Em|Em].
       + (* the first fragment leaves no context *)
@@ -1346,16 +1372,16 @@ Section Flatten.
         rewrite (nt_ctx_empty (mkrs P1 r1 f1 p1) (q0 :: qs) f2 r2 p2 Hw1 ltac:(discriminate)).
         cbn [mkrs rs_done rs_ptrs rs_prob]. rewrite Hw1, Hb1, Em in HS.
         destruct f1; cbn [negb] in HS.
-        * rewrite xf_zero in HS. cbn [x_adjust x_make_full x_next_use un_rest firstn] in HS.
-          destruct f2; injection HS as <- <- <-; cbn [l_ptrs l_full].
-          -- apply norm_mk; [cbn; lia|reflexivity].
-          -- rewrite state_app_nil. apply norm_mk; [cbn; lia|reflexivity].
+        * rewrite xf_zero in HS. cbn [x_adjust x_make_full x_next_use firstn] in HS.
+          destruct f2; injection HS as <- <- <-; cbn [l_ptrs l_full]; rewrite ?unr_nil, ?unr_nil'.
+          -- apply norm_mk; [cbn; unfold key in *; lia|reflexivity].
+          -- rewrite state_app_nil. apply norm_mk; [cbn; unfold key in *; lia|reflexivity].
         * pose proof (A3 eq_refl) as HP1. destruct P1; [|cbn [length] in HP1; lia].
           destruct (xw_empty (q0 :: qs) [] 0%Z HG) as [a' [X1 X2]]. rewrite X1 in HS. subst a'.
-          cbn [ext_full x_adjust x_make_full x_next_use un_rest firstn app] in HS.
+          cbn [ext_full x_adjust x_make_full x_next_use firstn app] in HS. rewrite ?unr_nil, ?unr_nil' in HS.
           destruct f2; injection HS as <- <- <-; cbn [l_ptrs l_full app].
-          -- apply norm_mk; [cbn; lia|reflexivity].
-          -- rewrite state_app_nil. apply norm_mk; [cbn; lia|].
+          -- apply norm_mk; [cbn; unfold key in *; lia|reflexivity].
+          -- rewrite state_app_nil. apply norm_mk; [cbn; unfold key in *; lia|].
              change (match N_order - 1 with 0 => false | S m' => Nat.eqb (length qs) m' end) with (Nat.eqb (length (q0 :: qs)) (N_order - 1)).
              rewrite app_nil_r. rewrite <- (B3 eq_refl). destruct (Nat.eqb (length (q0 :: qs)) (N_order - 1)); reflexivity.
       + (* the loop *)
@@ -1366,35 +1392,35 @@ Section Flatten.
         * (* the first fragment's left state is complete: nothing is written *)
           pose proof (full_sim (q0 :: qs) (mkchart (q0 :: qs) f2 r2) r1 1 P1 (p1 + p2)%Z 0%Z m (s_bo r1) B2 Em (le_n _)) as HF.
           destruct (xf (s_words r1) (q0 :: qs) 0%Z m (s_bo r1)) as [[[rest2 a2] nu2] back2].
-          cbn [x_adjust x_make_full x_next_use un_rest] in HS.
+          cbn [x_adjust x_make_full x_next_use] in HS. rewrite ?unr_nil, ?unr_nil' in HS.
           destruct (ntl (mkchart (q0 :: qs) f2 r2) r1 (q0 :: qs) 1 P1 true (p1 + p2)%Z m (s_bo r1)) as [e|[[[[Pn dn] Qn] nun] backn]] eqn:EL.
           -- destruct HF as [rest [a' [b2' [H1 [H2 H3]]]]]. injection H1 as -> -> -> ->.
              destruct (ntl_early _ _ _ _ _ _ _ _ _ _ B2 A2 EL) as [E1 [E2 E3]]. cbn [firstn] in HS.
              assert (He : e = mkrs P1 r2 true (rs_prob e)) by (destruct e; cbn in *; subst; reflexivity).
-             rewrite He. destruct f2; injection HS as <- <- <-; cbn [l_ptrs l_full].
-             ++ apply norm_mk; [cbn; lia|reflexivity].
-             ++ rewrite state_app_nil. apply norm_mk; [cbn; lia|reflexivity].
+             rewrite He. destruct f2; injection HS as <- <- <-; cbn [l_ptrs l_full]; rewrite ?unr_nil, ?unr_nil'.
+             ++ apply norm_mk; [cbn; unfold key in *; lia|reflexivity].
+             ++ rewrite state_app_nil. apply norm_mk; [cbn; unfold key in *; lia|reflexivity].
           -- destruct HF as [a' [H1 [H2 [H3 [H4 [H5 H6]]]]]]. injection H1 as -> -> -> ->. subst Pn dn.
-             destruct f2; injection HS as <- <- <-; cbn [l_ptrs l_full].
-             ++ apply norm_mk; [lia|reflexivity].
-             ++ rewrite (B3 eq_refl). rewrite Nat.ltb_irrefl. apply norm_mk; [lia|reflexivity].
+             destruct f2; injection HS as <- <- <-; cbn [l_ptrs l_full]; rewrite ?unr_nil, ?unr_nil'.
+             ++ apply norm_mk; [unfold key in *; lia|reflexivity].
+             ++ rewrite (B3 eq_refl). rewrite Nat.ltb_irrefl. apply norm_mk; [unfold key in *; lia|reflexivity].
         * (* still open: pointers of the second fragment are written while they keep extending *)
           pose proof (write_sim (q0 :: qs) (mkchart (q0 :: qs) f2 r2) r1 1 P1 [] (p1 + p2)%Z 0%Z (s_bo r1) B2 ltac:(fold m; lia)) as HW.
           cbv zeta in HW. fold m in HW. rewrite app_nil_r in HW.
           destruct (xw (s_words r1) m (q0 :: qs) [] 0%Z m (s_bo r1)) as [[[[[rest W'] a1] mf] nu'] back'].
           destruct (xf (s_words r1) rest a1 nu' back') as [[[rest2 a2] nu2] back2].
-          cbn [x_adjust x_make_full x_next_use un_rest] in HS.
+          cbn [x_adjust x_make_full x_next_use] in HS. rewrite ?unr_nil, ?unr_nil' in HS.
           destruct (ntl (mkchart (q0 :: qs) f2 r2) r1 (q0 :: qs) 1 P1 false (p1 + p2)%Z m (s_bo r1)) as [e|[[[[Pn dn] Qn] nun] backn]] eqn:EL.
           -- destruct HW as [H1 [H2 [H3 H4]]]. subst nu2 mf.
              destruct (ntl_early _ _ _ _ _ _ _ _ _ _ B2 A2 EL) as [E1 [E2 E3]]. cbn [firstn] in HS.
              assert (He : e = mkrs (P1 ++ W') r2 true (rs_prob e)) by (destruct e; cbn in *; subst; reflexivity).
-             rewrite He. destruct f2; injection HS as <- <- <-; cbn [l_ptrs l_full].
-             ++ apply norm_mk; [cbn; lia|reflexivity].
-             ++ rewrite state_app_nil. apply norm_mk; [cbn; lia|reflexivity].
+             rewrite He. destruct f2; injection HS as <- <- <-; cbn [l_ptrs l_full]; rewrite ?unr_nil, ?unr_nil'.
+             ++ apply norm_mk; [cbn; unfold key in *; lia|reflexivity].
+             ++ rewrite state_app_nil. apply norm_mk; [cbn; unfold key in *; lia|reflexivity].
           -- destruct HW as [H1 [H2 [H3 [H4 [H5 [H6 [H7 H8]]]]]]]. subst rest2 nu2 back2 mf Pn.
-             destruct f2; injection HS as <- <- <-; cbn [l_ptrs l_full].
-             ++ apply norm_mk; [lia|]. rewrite !orb_true_r. reflexivity.
-             ++ rewrite (B3 eq_refl). rewrite Nat.ltb_irrefl. apply norm_mk; [lia|].
+             destruct f2; injection HS as <- <- <-; cbn [l_ptrs l_full]; rewrite ?unr_nil, ?unr_nil'.
+             ++ apply norm_mk; [unfold key in *; lia|]. rewrite !orb_true_r. reflexivity.
+             ++ rewrite (B3 eq_refl). rewrite Nat.ltb_irrefl. apply norm_mk; [unfold key in *; lia|].
                 (* open result: as many state words as pointers *)
                 destruct dn; [reflexivity|]. cbn [orb].
                 destruct (ntl_inv _ _ _ _ _ _ _ _ _ _ _ _ _ _ B2 A2 (le_n _) ltac:(rewrite A1; apply le_n) (fun _ => eq_refl) EL) as [I1 [I2 [I3 I4]]].
@@ -1425,7 +1451,7 @@ Section Flatten.
      adjustment is the whole minus the parts *)
   Theorem subsume_flat : forall us ws, Forall known us -> Forall known ws ->
     forall adj l' r',
-    subsume N_order T false (c_left (fst (fin (flat rs_init us)))) (c_right (fst (fin (flat rs_init us))))
+    subsume N_order T dr (c_left (fst (fin (flat rs_init us)))) (c_right (fst (fin (flat rs_init us))))
                             (c_left (fst (fin (flat rs_init ws)))) (c_right (fst (fin (flat rs_init ws)))) = (adj, l', r') ->
     fin (mkrs (l_ptrs l') r' (l_full l') (snd (fin (flat rs_init us)) + snd (fin (flat rs_init ws)) + adj)%Z) =
     fin (flat rs_init (us ++ ws)).
